@@ -40,17 +40,66 @@ def make_printer(name):
     raise ValueError(name)
 
 
-def collect(acc, opens, case, sources, printer_name, with_comments):
+VIAS = ['assign', 'read_stream', 'read_callable', 'read_named']
+
+
+def obtain(path, text, with_comments, via, tmpdir):
+    """the tree of one file and the source name its fragments must carry.  'assign': parse(text) and
+    sourcepath set by hand; otherwise through calmjs.parse.io.read as documented: from an open file,
+    from a callable producing one, from an in-memory stream that has a name"""
+    import io as _io
+    import os
+    from functools import partial
+    from calmjs.parse import io as cio
+    from calmjs.parse.parsers.es5 import parse
+
+    def parser(t):
+        return parse(t, with_comments=with_comments)
+    if via == 'read_named':
+        stream = _io.StringIO(text)
+        stream.name = path
+        return cio.read(parser, stream), path
+    real = os.path.join(tmpdir, path.lstrip('/'))
+    os.makedirs(os.path.dirname(real), exist_ok=True)
+    with _io.open(real, 'w', encoding='utf-8', newline='') as fd:
+        fd.write(text)
+    if via == 'read_stream':
+        with _io.open(real, encoding='utf-8', newline='') as fd:
+            return cio.read(parser, fd), real
+    return cio.read(parser, partial(_io.open, real, encoding='utf-8', newline='')), real
+
+
+def collect(acc, opens, case, sources, printer_name, with_comments, via='assign'):
     """-> list of (file index, fragment) or None; sources = [(path, text)]"""
+    import shutil
+    import tempfile
     trees = []
     refs = []
-    for path, text in sources:
-        tree, ref = unparse.source_in_domain(acc, text, with_comments=with_comments)
-        if tree is None:
-            return None, None
-        tree.sourcepath = path
-        trees.append(tree)
-        refs.append(ref)
+    tmpdir = tempfile.mkdtemp(prefix='calmjs-c08-') if via not in ('assign', 'read_named') else None
+    try:
+        for i, (path, text) in enumerate(sources):
+            tree, ref = unparse.source_in_domain(acc, text, with_comments=with_comments)
+            if tree is None:
+                return None, None
+            if via == 'assign':
+                tree.sourcepath = path
+            else:
+                try:
+                    text.encode('utf-8')
+                except UnicodeError:
+                    acc.skipped['source_not_encodable'] += 1
+                    return None, None
+                try:
+                    tree, name = obtain(path, text, with_comments, via, tmpdir)
+                except Exception as e:
+                    acc.fail(None, case, {'bucket': 'read_raises:' + type(e).__name__, 'error': repr(e)[:200]}, opens)
+                    return None, None
+                sources[i] = (name, text)
+            trees.append(tree)
+            refs.append(ref)
+    finally:
+        if tmpdir:
+            shutil.rmtree(tmpdir, ignore_errors=True)
     printer = make_printer(printer_name)
     frags = []
     try:
@@ -211,16 +260,17 @@ def check_fragments(acc, opens, case, sources, frags, refs, printer_name):
     return explicit
 
 
-def check(acc, opens, sources, printer_name, with_comments, origin, nested_at=None):
+def check(acc, opens, sources, printer_name, with_comments, origin, nested_at=None, via='assign'):
+    sources = list(sources)
     case = {'sources': [list(s) for s in sources], 'printer': printer_name, 'with_comments': with_comments,
-            'origin': origin}
+            'origin': origin, 'via': via}
     if origin == 'nested' or (isinstance(origin, str) and origin.startswith('nested')):
         case['nested_at'] = nested_at
         frags, refs = collect_nested(acc, opens, case, sources, printer_name, with_comments, nested_at or 0)
         if frags is None:
             return None
         return check_fragments(acc, opens, case, sources, frags, refs, printer_name + '_ds_nested')
-    frags, refs = collect(acc, opens, case, sources, printer_name, with_comments)
+    frags, refs = collect(acc, opens, case, sources, printer_name, with_comments, via)
     if frags is None:
         return None
     return check_fragments(acc, opens, case, sources, frags, refs, printer_name)
@@ -228,7 +278,7 @@ def check(acc, opens, sources, printer_name, with_comments, origin, nested_at=No
 
 def replay(case, acc):
     check(acc, (), [tuple(s) for s in case['sources']], case['printer'], case.get('with_comments', False),
-          case.get('origin', 'replay'), case.get('nested_at'))
+          case.get('origin', 'replay'), case.get('nested_at'), case.get('via', 'assign'))
 
 
 PATHS = ['src/a.js', 'src/b.js', '/abs/lib/c.js']
@@ -248,13 +298,15 @@ def run_shard(shard):
     acc = Acc()
     opens = shard['open_signatures']
 
-    def one(texts, printer_name, wc, origin, nested_at=None):
+    def one(texts, printer_name, wc, origin, nested_at=None, via='assign'):
         sources = [(PATHS[i], t) for i, t in enumerate(texts)]
         if nested_at is not None and len(texts) == 2:
             origin = 'nested'
+            via = 'assign'
         else:
             nested_at = None
-        n = check(acc, opens, sources, printer_name, wc, origin, nested_at)
+        n = check(acc, opens, sources, printer_name, wc, origin, nested_at, via)
+        acc.label('via_' + via)
         if origin == 'nested':
             acc.label('nested_%s' % ('checked' if n else 'skipped'))
         lines = sum(positions.LineMap(t).nlines() for t in texts)
@@ -267,13 +319,13 @@ def run_shard(shard):
     if shard['kind'] == 'g1':
         prog = gen_program.program_strategy(layout_levels=(1, 2, 3, 3), max_fuel=5).map(lambda p: p['text'])
         strat = st.tuples(st.lists(prog, min_size=1, max_size=3), st.sampled_from(PRINTERS + ['obf_ds']),
-                          st.booleans(), st.one_of(st.none(), st.integers(0, 500)))
-        run_given(strat, lambda x: one(x[0], x[1], x[2], 'g1', x[3]), shard['n'], shard['hseed'], acc)
+                          st.booleans(), st.one_of(st.none(), st.integers(0, 500)), st.sampled_from(VIAS))
+        run_given(strat, lambda x: one(x[0], x[1], x[2], 'g1', x[3], x[4]), shard['n'], shard['hseed'], acc)
     else:
         corpus = c03.load_corpus()
         for i, src in enumerate(corpus):
             for pn in PRINTERS:
                 one([src], pn, i % 2 == 0, 'corpus')
             if i + 1 < len(corpus) and i % 5 == 0:
-                one([src, corpus[i + 1]], PRINTERS[i % len(PRINTERS)], False, 'corpus')
+                one([src, corpus[i + 1]], PRINTERS[i % len(PRINTERS)], False, 'corpus', None, VIAS[(i // 5) % len(VIAS)])
     return acc.result()
